@@ -227,6 +227,11 @@ func buildExtTestBinary(id string, h *harnessSpec, names []string) (string, erro
 
 // replayNative runs one vector natively and returns the VX-RESULT line plus notes.
 func replayNative(bin string, h *harnessSpec, fn string, vec []uint64, params map[string]int, timeout time.Duration) (result string, out string) {
+	return replayNativeSched(bin, h, fn, vec, params, timeout, "")
+}
+
+// replayNativeSched: schedule != "" makes the native runtime follow the solver's schedule (goroutine mode).
+func replayNativeSched(bin string, h *harnessSpec, fn string, vec []uint64, params map[string]int, timeout time.Duration, schedule string) (result string, out string) {
 	if timeout == 0 {
 		timeout = 20 * time.Second
 	}
@@ -238,6 +243,9 @@ func replayNative(bin string, h *harnessSpec, fn string, vec []uint64, params ma
 		cmd.Dir = h.ExtDir
 	}
 	cmd.Env = append(goEnv(), "VX_REPLAY="+vecString(vec, params), "VX_HARNESS="+fn)
+	if schedule != "" {
+		cmd.Env = append(cmd.Env, "VX_SCHEDULE="+schedule)
+	}
 	var buf bytes.Buffer
 	cmd.Stdout = &buf
 	cmd.Stderr = &buf
@@ -336,6 +344,9 @@ func cmdCheck(args []string) int {
 	if spec.Prepare != nil {
 		if err := spec.Prepare(*tier); err != nil {
 			fmt.Fprintln(os.Stderr, "prepare:", err)
+			if ce, ok := err.(*tvCompileError); ok {
+				return reportCompileViolation(spec, *tier, ce, t0, evPath)
+			}
 			return 2
 		}
 	}
@@ -542,7 +553,7 @@ func cmdCheck(args []string) int {
 		if v.Kind == "budget" && to == 0 {
 			to = 10 * time.Second
 		}
-		result, out := replayNative(bin, h, v.Harness, nativeVector(v.Vector, v.Inputs), v.Params, to)
+		result, out := replayNativeSched(bin, h, v.Harness, nativeVector(v.Vector, v.Inputs), v.Params, to, v.Schedule)
 		v.ReplayOut = result
 		for _, line := range strings.Split(out, "\n") {
 			if strings.HasPrefix(line, "VX-NOTE: ") {
@@ -776,6 +787,22 @@ func replayFile(spec *checkSpec, path string) int {
 		fmt.Fprintln(os.Stderr, err)
 		return 2
 	}
+	if v.Kind == "compile" {
+		if spec.Prepare == nil {
+			return 2
+		}
+		err := spec.Prepare("quick")
+		if ce, ok := err.(*tvCompileError); ok {
+			fmt.Println("VX-RESULT: compile-fail:", ce.Error())
+			return 1
+		}
+		if err != nil {
+			fmt.Fprintln(os.Stderr, err)
+			return 2
+		}
+		fmt.Println("VX-RESULT: ok (all templates compile and the emitted Go type-checks)")
+		return 0
+	}
 	var h *harnessSpec
 	var names []string
 	for k := range spec.Harnesses {
@@ -804,7 +831,7 @@ func replayFile(spec *checkSpec, path string) int {
 		fmt.Fprintln(os.Stderr, err)
 		return 2
 	}
-	result, out := replayNative(bin, h, v.Harness, v.Vector, v.Params, h.ReplayTimeout)
+	result, out := replayNativeSched(bin, h, v.Harness, v.Vector, v.Params, h.ReplayTimeout, v.Schedule)
 	fmt.Println(out)
 	fmt.Println("native result:", result)
 	if confirms(&v, result) {
@@ -815,3 +842,27 @@ func replayFile(spec *checkSpec, path string) int {
 }
 
 var _ = ssa.InstantiateGenerics
+
+// reportCompileViolation: a template of a translation-validation family is rejected by the compiler of the
+// current tree, or its emitted Go does not type-check. The failing compile IS the native reproduction.
+func reportCompileViolation(spec *checkSpec, tier string, ce *tvCompileError, t0 time.Time, evPath string) int {
+	id := spec.ID
+	v := Violation{Harness: "tv-compile", Kind: "compile", Msg: ce.Stage + " failed for a valid template", Replayed: "confirmed",
+		Notes: map[string]string{"template": ce.Template, "output": ce.Output}}
+	vdir := filepath.Join(verifRoot, "work", id, "violations")
+	os.RemoveAll(vdir)
+	os.MkdirAll(vdir, 0755)
+	p := filepath.Join(vdir, "tv-compile_0.json")
+	vb, _ := json.MarshalIndent(v, "", " ")
+	os.WriteFile(p, vb, 0644)
+	cov := map[string]any{"programs": 0, "disagreements_checked": 1, "samples": []any{v.Notes},
+		"rule": spec.Rule, "violations_confirmed": 1,
+		"explanation": "the compiler of the current tree rejected a template that is a valid documented program (or emitted Go that does not type-check); no symbolic comparison was run"}
+	ev := map[string]any{"property_id": id, "tier": tier, "seed": 0, "level": "translation_validation", "coverage": cov,
+		"assumptions": spec.Assumptions, "wall_s": time.Since(t0).Seconds(), "violations": 1}
+	b, _ := json.MarshalIndent(ev, "", " ")
+	os.WriteFile(evPath, b, 0644)
+	fmt.Printf("VIOLATION property=%s replay=%s\n", id, p)
+	fmt.Printf("  kind=compile template=%s\n  %s\n", ce.Template, strings.ReplaceAll(strings.TrimSpace(ce.Output), "\n", "\n  "))
+	return 1
+}
